@@ -489,17 +489,29 @@ impl Axecutor {
             new_size
         );
 
+        let new_end = match start_addr.checked_add(new_size) {
+            Some(end) => end,
+            None => {
+                return Err(AxError::from(format!(
+                    "Cannot resize section at address {start_addr:#x} to length {new_size}, as its end address would overflow"
+                )))
+            }
+        };
+
         // Iterate all areas once and save the index of the area to resize
         let mut area_to_resize = None;
 
         // Also make sure there's no overlapping area already defined, including code region
         for (i, area) in self.state.memory.iter().enumerate() {
             if start_addr == area.start {
+                // This is the area we resize, it cannot collide with itself
                 area_to_resize = Some(i);
+                continue;
             }
 
-            // Make sure the new length doesn't overlap with any other area after it
-            if start_addr + new_size > area.start {
+            // Make sure the new extent doesn't overlap with any other area:
+            // two half-open ranges share an address iff max(starts) < min(ends)
+            if start_addr.max(area.start) < new_end.min(area.start + area.length) {
                 return Err(AxError::from(format!(
                     "Cannot resize section at address {:#x} to length {}, as it overlaps with another section starting at {:#x} (len={})",
                     start_addr, new_size, area.start, area.length
